@@ -41,13 +41,44 @@ def gen_ascii_file(rng):
     return bytes(rng.choice([13, 13, 10, 10, 65, 66, 32, 34, 48, 0, 0x80, 0xFF, rng.randrange(256)]) for _ in range(n))
 
 
+BUFFER_SIZES = [256, 512, 1024, 2048, 4096, 8192, 16384, 32768, 65536]
+
+
+def gen_long_lines(rng):
+    """Lines whose separators fall on, just before and just after the usual buffer sizes (a conversion done block by block must not show)."""
+    b = rng.choice(BUFFER_SIZES)
+    sep = rng.choice(["\r", "\n", "\r\n", "\r\r"])
+    off = rng.choice([-1, 0, 0, 0, 1])
+    lines = []
+    pos = rng.choice([0, 0, 1])  # lst2bas output starts with a CR
+    lead = pos
+    target = b + off
+    while pos < 2 * b + 40:
+        # next separator start: the next multiple of b (shifted by off) when reachable with a line of 1..200 characters, else a random line
+        nxt = ((pos // b) + 1) * b + off
+        ln = nxt - pos if 1 <= nxt - pos <= 200 else rng.randint(1, 200)
+        num = str(10 + len(lines))
+        body = (num + " REM " + "v" * 200)[:ln] if ln > len(num) else "x" * ln
+        lines.append(body)
+        pos += ln + len(sep)
+    return lines, sep, lead
+
+
 def gen_cases(rng, tier):
     n = scale(tier, 300, 6000)
+    nb = scale(tier, 24, 300)
     cases = []
     for _ in range(n):
         cases.append({"kind": "lst", "text": gen_listing(rng), "dos": rng.random() < 0.5})
         cases.append({"kind": "bas", "hex": gen_ascii_file(rng).hex(), "dos": rng.random() < 0.5})
-    return cases, {"listings": n, "ascii files": n}
+    for _ in range(nb):
+        lines, sep, lead = gen_long_lines(rng)
+        data = ("\r" * lead + sep.join(lines) + (sep if rng.random() < 0.7 else "")).encode("latin1")
+        cases.append({"kind": "bas", "hex": data.hex(), "dos": rng.random() < 0.5})
+        lines, sep, lead = gen_long_lines(rng)
+        term = rng.choice(["\n", "\r\n", "\r"])
+        cases.append({"kind": "lst", "text": term.join(lines) + term, "dos": rng.random() < 0.5})
+    return cases, {"listings": n, "ascii files": n, "long ascii files with separators at buffer-size offsets": nb, "long listings": nb}
 
 
 def py_isspace_strip(l):
